@@ -67,6 +67,11 @@ def render(z, style):
 def h09a(mask: int, ttls: int, label: int, k1: int, k2: int) -> bool:
     """from_text(z.to_styled_text(style)) == z for every zone of the family and every value of one group of lossless style knobs."""
     kind, relativize, group = S("zone"), S("relativize"), S("group")
+    lo, hi = S("masks")
+    if hi - lo == 1:
+        mask = lo  # pinned by the shard: keep the solver out of the membership arithmetic
+    if S("ttls") is False:
+        ttls = FIXED_TTLS
     z = build_zone(kind, relativize, mask, ttls, label if S("label") else None)
     kw = {"origin": ORIGIN, "relativize": relativize, "nl": "\n"}
     if group == "order":
@@ -92,6 +97,10 @@ def h09a(mask: int, ttls: int, label: int, k1: int, k2: int) -> bool:
     return True
 
 
+FIXED_TTLS = sum([2 * 4**i for i in range(len(POOL))])
+CHUNKS = [0, 1, 2, 3, 4, 5, 8, 16, 32, 40]
+
+
 def h09a_pre(mask, ttls, label, k1, k2):
     lo, hi = S("masks")
     if not (lo <= mask < hi and 0 <= ttls < 4**len(POOL) and 0 <= label <= 255):
@@ -100,14 +109,18 @@ def h09a_pre(mask, ttls, label, k1, k2):
         return False
     if S("label") and (mask != 0 or ttls != 0):
         return False
-    if S("ttls") is False and ttls != 0b10101010101010 * 0 + sum([2 * 4**i for i in range(len(POOL))]):
+    if S("ttls") is False and ttls != FIXED_TTLS:
         return False
     group = S("group")
     if group == "order":
         return 0 <= k1 <= 3 and 0 <= k2 <= 5
     if group == "just":
+        if S("tier") == "quick" and not (k2 == k1 or k2 == (k1 + 4) % 9):
+            return False  # quick: 18 of the 81 combinations (every value of every knob, paired two ways)
         return 0 <= k1 <= 8 and 0 <= k2 <= 8
     if group == "chunks":
+        if S("tier") == "quick" and not (k1 in CHUNKS and k2 in CHUNKS):
+            return False
         return 0 <= k1 <= 40 and 0 <= k2 <= 40 and (k1 == 0 or k2 == 0 or k1 == k2)
     return 0 <= k1 <= 3 and k2 == 0
 
@@ -122,7 +135,7 @@ def h09a_shards(tier):
             for group in ("order", "just", "chunks", "generic"):
                 masks = [(0b11111111, 0b11111111 + 1)] if tier == "quick" else [(0b11111111, 0b100000000)] + single
                 for m in masks:
-                    out.append({"zone": kind, "relativize": rel, "group": group, "masks": m, "label": False, "ttls": False,
+                    out.append({"zone": kind, "relativize": rel, "group": group, "masks": m, "label": False, "ttls": False, "tier": tier,
                                 "_timeout": 900, "_path_timeout": 120})
             # symbolic owner octet (escapes in owner names), default style
             out.append({"zone": kind, "relativize": rel, "group": "generic", "masks": (0, 1), "label": True, "ttls": True, "_timeout": 900, "_path_timeout": 120})
@@ -190,10 +203,12 @@ def h09b_pre(owner_inherit, ttl_inherit, class_mode, abs_names, multiline, use_t
 
 def h09b2(t1: int, t2: int, class_first: bool, first_has_class: bool) -> bool:
     """While no default TTL is known, a record without TTL inherits the TTL of the previous record, whichever of `ttl class` / `class ttl` order that record used."""
-    a = "a %d %sA 10.0.0.1" % (t1, "IN " if first_has_class else "")
-    b = ("b IN %d A 10.0.0.2" % t2) if class_first else ("b %d IN A 10.0.0.2" % t2)
+    # (str(), not "%d" %: the latter realizes a symbolic int, one value per path)
+    s1, s2 = str(t1), str(t2)
+    a = "a " + s1 + " " + ("IN " if first_has_class else "") + "A 10.0.0.1"
+    b = ("b IN " + s2 + " A 10.0.0.2") if class_first else ("b " + s2 + " IN A 10.0.0.2")
     text = a + "\n" + b + "\nc A 10.0.0.3\n"
-    explicit = "a %d IN A 10.0.0.1\nb %d IN A 10.0.0.2\nc %d IN A 10.0.0.3\n" % (t1, t2, t2)
+    explicit = "a " + s1 + " IN A 10.0.0.1\nb " + s2 + " IN A 10.0.0.2\nc " + s2 + " IN A 10.0.0.3\n"
     r1 = dns.zonefile.read_rrsets(text, origin=ORIGIN, relativize=True, rdclass=None)
     r2 = dns.zonefile.read_rrsets(explicit, origin=ORIGIN, relativize=True, rdclass=None)
     hit("read")
@@ -206,6 +221,8 @@ def h09b2(t1: int, t2: int, class_first: bool, first_has_class: bool) -> bool:
 
 
 def h09b2_pre(t1, t2, class_first, first_has_class):
+    if class_first != S("cf") or first_has_class != S("fc"):
+        return False
     return 0 <= t1 <= 99999 and 0 <= t2 <= 99999
 
 
@@ -253,7 +270,7 @@ HARNESSES = [
                      "dns.tokenizer.Tokenizer.get"],
             bound="all 2^6 x 3 combinations of: inherited owner, inherited TTL, class explicit / omitted / before the TTL, absolute vs relative names, parenthesised multi-line record, $TTL directive, $GENERATE 1-3 vs its expansion",
             stubs=["E6"], outside="$GENERATE modifiers ${offset,width,base}; $INCLUDE"),
-    Harness("H09b2", h09b2, h09b2_pre, lambda tier: [{"_timeout": 900, "_path_timeout": 120}], kind="universal over the TTLs",
+    Harness("H09b2", h09b2, h09b2_pre, lambda tier: [{"cf": cf, "fc": fc, "_timeout": 900, "_path_timeout": 120} for cf in (False, True) for fc in (False, True)], kind="universal over the TTLs",
             encodes=["dns.zonefile.Reader._rr_line", "dns.zonefile.read_rrsets", "dns.ttl.from_text"],
             bound="three records without SOA / $TTL; TTLs symbolic 0..99999; class-before-TTL or TTL-before-class; class present or omitted on the first record",
             stubs=["E2", "E6"], outside="longer files"),
